@@ -119,14 +119,14 @@ Definition rearrange_k2_k1_into_k1 (k : fds) : kerr + fds :=
            (lims k) (encx k) (reconx k)).
 
 (* ---- remove_readout_os ------------------------------------------------------------------------------------------------------ *)
-(* crop window [start, start + recon) with start = (enc - recon) // 2, applied to the image along k0, to every trajectory
+(* crop window [start, start + recon) with start = enc // 2 - recon // 2, applied to the image along k0, to every trajectory
    component that is not a singleton along k0, and subtracted from center_sample (r = 7).  On ids: output sample j stands
    for source sample start + j (the data values themselves are FFT - crop - FFT of the source readout). *)
 Definition remove_readout_os (k : fds) : kerr + fds :=
   if reconx k =? encx k then inr k
   else if encx k <? reconx k then inl ErrValue
   else
-    let start := (encx k - reconx k) / 2 in
+    let start := (encx k / 2 - reconx k / 2) in
     let m := Z.min (reconx k) (n0 k - start) in
     inr (mkF (nO k) (nC k) (n2 k) (n1 k) m
              (fun o c a b j => fd k o c a b (start + j))
